@@ -5,11 +5,23 @@
 // inserts of new keys) on ONE swamp. The race detector writes its reports to stderr; a Go
 // runtime fatal error ("concurrent map iteration and map write") kills the process - both are
 // parsed by the parent. This program prints one line per event to stdout:
-//   TORN <reader> key=<k> value=<v> updatedBy=<s>     versioned-read check failed
-//   READ <reader> key=<k> value=<v> updatedBy=<s>     a sample of the consistent reads
-//   NILREPLY <request>                                the gateway swallowed a panic (nil, nil)
-//   ERR <request> <error>                             unexpected gRPC error
-//   DONE reads=<n> writes=<n>
+//
+//	TORN <reader> key=<k> value=<v> updatedBy=<s>     versioned-read check failed
+//	READ <reader> key=<k> value=<v> updatedBy=<s>     a sample of the consistent reads
+//	NILREPLY <request>                                the gateway swallowed a panic (nil, nil)
+//	ERR <request> <error>                             unexpected gRPC error
+//	EVENT|ETORN key=<k> value=<v> updatedBy=<s>      a subscriber event (consistent | torn)
+//	HANG / STOPHANG                                   the load or the shutdown did not finish (all
+//	                                                  goroutine stacks follow on stderr)
+//	DONE reads=<n> writes=<n>
+//
+// --phase A: Set/insert/Delete/ShiftByKeys/Patch writers.  --phase B: the Cap-bearing flows
+// (PatchTreasures with Cap, ShiftMatchingTreasures with Cap -> beacon.CountMatching / ShiftMatching)
+// and the rarely used readers (IsKeyExist, AreKeysExist, Increment) against inserts of new keys;
+// B has no Delete/ShiftByKeys writers because ShiftMatching and deleteHandler take the index
+// beacon lock and the record guard in opposite orders (known finding
+// deadlock_index_lock_vs_record_guard; a hang is still classified from the stack dump).
+// Both phases run an event subscriber (SubscribeToEvents over bufconn) with the versioned check.
 package main
 
 import (
@@ -19,6 +31,7 @@ import (
 	"fmt"
 	"io"
 	"os"
+	"runtime"
 	"strconv"
 	"sync"
 	"sync/atomic"
@@ -40,6 +53,9 @@ func say(format string, a ...interface{}) {
 	out.Unlock()
 }
 
+// only the keys written by the versioned Set (k..., n...) carry value = i, updatedBy = "i"
+func versioned(key string) bool { return len(key) > 0 && (key[0] == 'k' || key[0] == 'n') }
+
 func mpInt64(v int64) []byte {
 	b := make([]byte, 9)
 	b[0] = 0xd3
@@ -52,6 +68,7 @@ func main() {
 	durMs := flag.Int("ms", 2500, "duration of the load in milliseconds")
 	mode := flag.String("mode", "mem", "mem | def | imm")
 	nkeys := flag.Int("keys", 40, "")
+	phase := flag.String("phase", "A", "A | B")
 	flag.Parse()
 	rig.Quiet()
 	root, _ := os.MkdirTemp("", "c10r-")
@@ -95,6 +112,54 @@ func main() {
 
 	var reads, writes, sampled int64
 	stop := make(chan struct{})
+
+	// ---- event subscriber: every New/Modified event must carry value and author of one version
+	var events, esampled int64
+	subDone := make(chan struct{})
+	subCtx, subCancel := context.WithCancel(ctx)
+	defer subCancel()
+	if st, err := sc.SubscribeToEvents(subCtx, &hydrapb.SubscribeToEventsRequest{IslandID: 1, SwampName: swampName}); err != nil {
+		say("ERR SubscribeToEvents %v", err)
+		close(subDone)
+	} else {
+		seenVersions := map[string]map[int64]bool{}
+		go func() {
+			defer close(subDone)
+			for {
+				ev, err := st.Recv()
+				if err != nil {
+					return
+				}
+				t := ev.GetTreasure()
+				if t == nil || t.Int64Val == nil || !versioned(t.Key) {
+					continue
+				}
+				atomic.AddInt64(&events, 1)
+				ub := ""
+				if t.UpdatedBy != nil {
+					ub = *t.UpdatedBy
+				}
+				// every versioned Set stores a fresh version and emits one New/Modified event whose
+				// record is converted inside that writer's guarded section: no two events of a key
+				// carry the same version
+				seenV := seenVersions[t.Key]
+				if seenV == nil {
+					seenV = map[int64]bool{}
+					seenVersions[t.Key] = seenV
+				}
+				if seenV[*t.Int64Val] {
+					say("EDUP key=%s value=%d updatedBy=%q", t.Key, *t.Int64Val, ub)
+				}
+				seenV[*t.Int64Val] = true
+				if ub != strconv.FormatInt(*t.Int64Val, 10) {
+					say("ETORN key=%s value=%d updatedBy=%q", t.Key, *t.Int64Val, ub)
+				} else if atomic.AddInt64(&esampled, 1) <= 150 {
+					say("EVENT key=%s value=%d updatedBy=%q", t.Key, *t.Int64Val, ub)
+				}
+			}
+		}()
+		time.Sleep(50 * time.Millisecond) // let the subscription reach the swamp
+	}
 	var wg sync.WaitGroup
 	spawn := func(name string, salt int, f func(rng *common.Rng)) {
 		wg.Add(1)
@@ -112,7 +177,7 @@ func main() {
 		}()
 	}
 	check := func(who string, t *hydrapb.Treasure) {
-		if t == nil || !t.IsExist || t.Int64Val == nil {
+		if t == nil || !t.IsExist || t.Int64Val == nil || !versioned(t.Key) {
 			return
 		}
 		atomic.AddInt64(&reads, 1)
@@ -128,46 +193,126 @@ func main() {
 	}
 
 	// ---- writers
+	// hot keys: writers of the same record back to back (the second one takes the guard while
+	// the first is still inside its Save - flush, event delivery, index maintenance)
 	for w := 0; w < 3; w++ {
-		spawn("set", w, func(rng *common.Rng) { set(key(rng.Intn(*nkeys))); atomic.AddInt64(&writes, 1) })
+		spawn("hot", w, func(rng *common.Rng) { set(key(rng.Intn(2))); atomic.AddInt64(&writes, 1) })
 	}
-	spawn("insert", 0, func(rng *common.Rng) { set(fmt.Sprintf("n%06d", rng.Intn(1000000))); atomic.AddInt64(&writes, 1) })
-	spawn("delete", 0, func(rng *common.Rng) {
-		k := key(rng.Intn(*nkeys))
-		r, err := gw.Delete(ctx, &hydrapb.DeleteRequest{Swamps: []*hydrapb.DeleteRequest_SwampKeys{{IslandID: 1, SwampName: swampName, Keys: []string{k}}}})
-		if err != nil {
-			say("ERR Delete %v", err)
-		} else if r == nil {
-			say("NILREPLY Delete")
+	mkey := func(i int) string { return fmt.Sprintf("m%03d", i) }
+	strVal := func(v string) []byte { return append([]byte{byte(0xa0 + len(v))}, v...) }
+	capFilter := func(state string) *hydrapb.FilterGroup {
+		p := "s"
+		return &hydrapb.FilterGroup{Logic: hydrapb.FilterLogic_AND, Filters: []*hydrapb.TreasureFilter{{
+			BytesFieldPath: &p, Operator: hydrapb.Relational_EQUAL, CompareValue: &hydrapb.TreasureFilter_StringVal{StringVal: state}}}}
+	}
+	// selection filter of the Cap-bearing shift: CONTAINS is not bucket-eligible, so the request does
+	// not go through GetOrBuildBucket -> beaconKey.CloneUnorderedTreasures, which holds the key
+	// beacon's write lock while taking every record guard and deadlocks against any SaveFunction
+	// (second inversion of the known finding deadlock_index_lock_vs_record_guard)
+	sPath := "s"
+	doneFilter := &hydrapb.FilterGroup{Logic: hydrapb.FilterLogic_AND, Filters: []*hydrapb.TreasureFilter{{
+		BytesFieldPath: &sPath, Operator: hydrapb.Relational_CONTAINS, CompareValue: &hydrapb.TreasureFilter_StringVal{StringVal: "don"}}}}
+	if *phase == "B" {
+		for w := 0; w < 2; w++ {
+			spawn("set", w, func(rng *common.Rng) { set(key(rng.Intn(*nkeys))); atomic.AddInt64(&writes, 1) })
 		}
-		set(k)
-		atomic.AddInt64(&writes, 2)
-	})
-	spawn("shift", 0, func(rng *common.Rng) {
-		k := fmt.Sprintf("n%06d", rng.Intn(1000000))
-		set(k)
-		r, err := gw.ShiftByKeys(ctx, &hydrapb.ShiftByKeysRequest{IslandID: 1, SwampName: swampName, Keys: []string{k, key(rng.Intn(*nkeys))}})
-		if err != nil {
-			say("ERR ShiftByKeys %v", err)
-		} else if r == nil {
-			say("NILREPLY ShiftByKeys")
-		} else {
-			for _, t := range r.Treasures {
-				check("ShiftByKeys", t)
+		spawn("insert", 0, func(rng *common.Rng) { set(fmt.Sprintf("n%06d", rng.Intn(1000000))); atomic.AddInt64(&writes, 1) })
+		// Cap-bearing patch: claim records while at most 5 are claimed; sometimes finish or reopen one
+		spawn("cappatch", 0, func(rng *common.Rng) {
+			state := []string{"claimed", "claimed", "done", "open"}[rng.Intn(4)]
+			var patches []*hydrapb.TreasurePatch
+			for i := 0; i < 1+rng.Intn(3); i++ {
+				patches = append(patches, &hydrapb.TreasurePatch{Key: mkey(rng.Intn(20)), Ops: []*hydrapb.PatchOp{
+					{Op: hydrapb.PatchOp_SET, Path: "s", Value: strVal(state)}, {Op: hydrapb.PatchOp_INC, Path: "n", Value: mpInt64(1)}}})
 			}
+			r, err := gw.PatchTreasures(ctx, &hydrapb.PatchTreasuresRequest{IslandID: 1, SwampName: swampName, CreateIfNotExist: true,
+				Patches: patches, Cap: &hydrapb.Cap{Filter: capFilter("claimed"), MaxMatching: 5}})
+			if err != nil {
+				say("ERR CapPatch %v", err)
+			} else if r == nil {
+				say("NILREPLY CapPatch")
+			}
+			atomic.AddInt64(&writes, 1)
+		})
+		// Cap-bearing shift: take finished records off the key index
+		spawn("capshift", 0, func(rng *common.Rng) {
+			r, err := gw.ShiftMatchingTreasures(ctx, &hydrapb.ShiftMatchingTreasuresRequest{IslandID: 1, SwampName: swampName,
+				IndexType: hydrapb.IndexType_KEY, OrderType: hydrapb.OrderType_ASC, HowMany: 2, Filters: doneFilter,
+				Cap: &hydrapb.Cap{Filter: capFilter("claimed"), MaxMatching: 100}})
+			if err != nil {
+				say("ERR CapShift %v", err)
+			} else if r == nil {
+				say("NILREPLY CapShift")
+			}
+			atomic.AddInt64(&writes, 1)
+			time.Sleep(200 * time.Microsecond)
+		})
+		spawn("increment", 0, func(rng *common.Rng) {
+			r, err := gw.IncrementInt64(ctx, &hydrapb.IncrementInt64Request{IslandID: 1, SwampName: swampName, Key: "ctr", IncrementBy: 1})
+			if err != nil {
+				say("ERR Increment %v", err)
+			} else if r == nil {
+				say("NILREPLY Increment")
+			}
+			atomic.AddInt64(&writes, 1)
+		})
+		spawn("exists", 0, func(rng *common.Rng) {
+			r, err := gw.IsKeyExist(ctx, &hydrapb.IsKeyExistRequest{IslandID: 1, SwampName: swampName, Key: key(rng.Intn(*nkeys))})
+			if err != nil {
+				say("ERR IsKeyExist %v", err)
+			} else if r == nil {
+				say("NILREPLY IsKeyExist")
+			}
+			r2, err := gw.AreKeysExist(ctx, &hydrapb.AreKeysExistRequest{IslandID: 1, SwampName: swampName, Keys: []string{mkey(rng.Intn(20)), fmt.Sprintf("n%06d", rng.Intn(1000000))}})
+			if err != nil {
+				say("ERR AreKeysExist %v", err)
+			} else if r2 == nil {
+				say("NILREPLY AreKeysExist")
+			}
+		})
+	} else {
+		for w := 0; w < 3; w++ {
+			spawn("set", w, func(rng *common.Rng) { set(key(rng.Intn(*nkeys))); atomic.AddInt64(&writes, 1) })
 		}
-		atomic.AddInt64(&writes, 2)
-	})
-	spawn("patch", 0, func(rng *common.Rng) {
-		r, err := gw.PatchTreasures(ctx, &hydrapb.PatchTreasuresRequest{IslandID: 1, SwampName: swampName, CreateIfNotExist: true,
-			Patches: []*hydrapb.TreasurePatch{{Key: "mp", Ops: []*hydrapb.PatchOp{{Op: hydrapb.PatchOp_INC, Path: "n", Value: mpInt64(1)}}}}})
-		if err != nil {
-			say("ERR Patch %v", err)
-		} else if r == nil {
-			say("NILREPLY Patch")
-		}
-		atomic.AddInt64(&writes, 1)
-	})
+		spawn("insert", 0, func(rng *common.Rng) { set(fmt.Sprintf("n%06d", rng.Intn(1000000))); atomic.AddInt64(&writes, 1) })
+		spawn("delete", 0, func(rng *common.Rng) {
+			k := key(rng.Intn(*nkeys))
+			r, err := gw.Delete(ctx, &hydrapb.DeleteRequest{Swamps: []*hydrapb.DeleteRequest_SwampKeys{{IslandID: 1, SwampName: swampName, Keys: []string{k}}}})
+			if err != nil {
+				say("ERR Delete %v", err)
+			} else if r == nil {
+				say("NILREPLY Delete")
+			}
+			set(k)
+			atomic.AddInt64(&writes, 2)
+		})
+		spawn("shift", 0, func(rng *common.Rng) {
+			k := fmt.Sprintf("n%06d", rng.Intn(1000000))
+			set(k)
+			r, err := gw.ShiftByKeys(ctx, &hydrapb.ShiftByKeysRequest{IslandID: 1, SwampName: swampName, Keys: []string{k, key(rng.Intn(*nkeys))}})
+			if err != nil {
+				say("ERR ShiftByKeys %v", err)
+			} else if r == nil {
+				say("NILREPLY ShiftByKeys")
+			} else {
+				for _, t := range r.Treasures {
+					check("ShiftByKeys", t)
+				}
+			}
+			atomic.AddInt64(&writes, 2)
+		})
+		spawn("patch", 0, func(rng *common.Rng) {
+			r, err := gw.PatchTreasures(ctx, &hydrapb.PatchTreasuresRequest{IslandID: 1, SwampName: swampName, CreateIfNotExist: true,
+				Patches: []*hydrapb.TreasurePatch{{Key: "mp", Ops: []*hydrapb.PatchOp{{Op: hydrapb.PatchOp_INC, Path: "n", Value: mpInt64(1)}}}}})
+			if err != nil {
+				say("ERR Patch %v", err)
+			} else if r == nil {
+				say("NILREPLY Patch")
+			}
+			atomic.AddInt64(&writes, 1)
+		})
+
+	}
 
 	// ---- readers
 	spawn("getall", 0, func(rng *common.Rng) {
@@ -211,6 +356,9 @@ func main() {
 		}
 	})
 	idx := []hydrapb.IndexType_Type{hydrapb.IndexType_KEY, hydrapb.IndexType_CREATION_TIME, hydrapb.IndexType_UPDATE_TIME, hydrapb.IndexType_EXPIRATION_TIME, hydrapb.IndexType_VALUE_INT64}
+	if *phase == "B" {
+		idx = []hydrapb.IndexType_Type{hydrapb.IndexType_KEY, hydrapb.IndexType_KEY, hydrapb.IndexType_KEY}
+	}
 	for w := 0; w < 2; w++ {
 		spawn("getbyindex", w, func(rng *common.Rng) {
 			it := idx[rng.Intn(len(idx))]
@@ -262,7 +410,31 @@ func main() {
 
 	time.Sleep(time.Duration(*durMs) * time.Millisecond)
 	close(stop)
-	wg.Wait()
-	say("DONE reads=%d writes=%d", atomic.LoadInt64(&reads), atomic.LoadInt64(&writes))
-	srv.Stop()
+	dumpAndExit := func(what string) {
+		say("%s", what)
+		buf := make([]byte, 8<<20)
+		n := runtime.Stack(buf, true)
+		os.Stderr.WriteString("\n" + what + " goroutine dump:\n")
+		os.Stderr.Write(buf[:n])
+		os.Exit(3)
+	}
+	finished := make(chan struct{})
+	go func() { wg.Wait(); close(finished) }()
+	select {
+	case <-finished:
+	case <-time.After(25 * time.Second):
+		dumpAndExit("HANG")
+	}
+	// end the subscription before the shutdown (server shutdown with live subscribers is not
+	// part of this property's request mix)
+	subCancel()
+	select {
+	case <-subDone:
+	case <-time.After(5 * time.Second):
+	}
+	time.Sleep(300 * time.Millisecond)
+	say("DONE reads=%d writes=%d events=%d", atomic.LoadInt64(&reads), atomic.LoadInt64(&writes), atomic.LoadInt64(&events))
+	// no engine shutdown here: server shutdown is not part of this property's request mix
+	// (hydra.MarkShuttingDown replaces the subscriber sync.Maps with plain stores, which the race
+	// detector pairs with every earlier subscriber access)
 }
